@@ -212,8 +212,8 @@ class VIndexArray(ArrayExpr):
             # Convert unsigned integers to signed to avoid float promotion in subtraction
             if idx.dtype.kind == "u":
                 idx = idx.astype(np.int64)
-            a = idx - start
-            if len(a) > 0:
+            a = np.asarray(idx - start)  # a 0-d indexer gives a NumPy scalar
+            if a.size > 0:
                 dtype = np.min_scalar_type(np.max(a, axis=None))
                 inblock_idxs.append(a.astype(dtype, copy=False))
             else:
